@@ -80,8 +80,13 @@ f_call_other (void)
       check_for_destr (v);
       if ((v->size < 1) || !(v->item->type == T_STRING))
         error ("call_other: 1st elem of array for arg 2 must be a string\n");
-      funcname = v->item->u.string;
       num_arg = 2 + merge_arg_lists (num_arg - 2, v, 1);
+      /* The array may be shared with the callee, which can overwrite its first element
+       * while call_all_other() still needs the name for the objects to come: the name
+       * takes the array's place on the stack (the arguments have been copied above). */
+      assign_svalue_no_free (&arg[1], v->item);
+      free_array (v);
+      funcname = arg[1].u.string;
     }
 
   if (arg[0].type == T_OBJECT)
